@@ -21,7 +21,7 @@ RULE = ("op sets: 2-3 threads x 1-3 operations from {safe/unsafe register, remov
 ASSUMPTIONS = ["granularity is the source line (CPython may also switch between bytecodes of a line)",
                "for SqlStorage each storage call is atomic for the scheduler (a thread is never parked inside an open sqlite transaction)"]
 REQUIRED_REACH = ["socket_histories", "schedules_explored", "histories_linearizable", "concurrent_safe_registers", "concurrent_removes", "sql_schedules", "sql_stress_entries_read", "autoclean_histories", "snapshot_histories_daemon", "snapshot_histories_inprocess", "bulk_removal_histories"]
-SHARD_TIMEOUT = {"quick": 240, "thorough": 3000}
+SHARD_TIMEOUT = {"quick": 480, "thorough": 3000}
 NSNAME = "Pyro.NameServer"
 URIS = ["PYRO:o1@h:1", "PYRO:o2@h:2", "PYRO:o3@h:3"]
 
